@@ -354,8 +354,14 @@ func sharedDB(c *evid.Case, logger *zap.Logger) (basedb.Database, bool, error) {
 		}
 		st.db = db
 	}
-	if _, err := st.db.DeletePrefix(nil); err != nil {
-		return nil, false, err
+	var werr error
+	for try := 0; try < 5; try++ {
+		if _, werr = st.db.DeletePrefix(nil); werr == nil {
+			break
+		}
+	}
+	if werr != nil {
+		return nil, false, werr
 	}
 	if n, err := st.db.CountPrefix(nil); err != nil || n != 0 {
 		return nil, false, fmt.Errorf("shared store not empty after wipe: %d keys, %v", n, err)
@@ -501,6 +507,12 @@ func (w *world) rawProp(sh *share) (slot phase0.Slot, present bool) {
 		return 0, true
 	}
 	return phase0.Slot(binary.LittleEndian.Uint64(o.Value)), true
+}
+
+// blank: the record exists but its value is empty (only with the opt-in blank-record fault).
+func (w *world) blank(prefix string, sh *share) bool {
+	o, found, err := w.inner.Get(w.netPrefix(prefix), sh.pk)
+	return err == nil && found && len(o.Value) == 0
 }
 
 // ---- objects to sign ----------------------------------------------------------------------------------
